@@ -67,6 +67,12 @@ def _may_paint(doc, ad):
 
 
 def _observe_doc(doc, ad, rid, times, detail, use_cache):
+  from .core import AltContext, alt_for
+  with AltContext(alt_for(("isd", rid))):
+    return _observe_doc_in_context(doc, ad, rid, times, detail, use_cache)
+
+
+def _observe_doc_in_context(doc, ad, rid, times, detail, use_cache):
   from ttconv.isd import ISD
   D = ad.get("D", 2)
   # use_cache == "snap": every snapshot of this record is taken THROUGH the SignificantTimes cache (a snapshot is a snapshot
